@@ -96,6 +96,16 @@ class HashFileDB(ObjectDB):
                 except (ObjectFormatError, FileNotFoundError):
                     pass
 
+        # a copy that failed (and was reported) can still have left partial data
+        # under the object's name: such an object is re-hashed below, never trusted
+        failed_oids: set[str] = set()
+        _on_error = on_error
+        if on_error is not None:
+
+            def _on_error(_oid: str, exc: BaseException) -> None:
+                failed_oids.add(_oid)
+                on_error(_oid, exc)
+
         transferred = super().add(
             paths,
             fs,
@@ -103,21 +113,21 @@ class HashFileDB(ObjectDB):
             hardlink=hardlink,
             callback=callback,
             check_exists=check_exists,
-            on_error=on_error,
+            on_error=_on_error,
             **kwargs,
         )
 
         oid_cache_paths = {o: self.oid_to_path(o) for o in oids}
         for o, cache_path in oid_cache_paths.items():
             try:
-                if verify:
+                if verify or o in failed_oids:
                     self.check(o, check_hash=True)
                 self.protect(cache_path)
             except FileNotFoundError:
                 pass
             except ObjectFormatError as exc:
                 # check() has removed the mismatching object: it did not arrive
-                if on_error is not None:
+                if on_error is not None and o not in failed_oids:
                     on_error(o, exc)
 
         self.state.save_many(
